@@ -846,3 +846,26 @@ Section LifeStatic.
     exists m. split; [exact Hm|split; [exact Hid|split; [exact Ho|exact Hn]]].
   Qed.
 End LifeStatic.
+
+(* ---------- a request on an order that is not resting Executable with a bet id changes nothing at all ---------- *)
+Definition manages (a : action) : option Z :=
+  match a with ACancel n _ | AUpdate n _ | AReplace n _ _ => Some n | _ => None end.
+Theorem request0_rejected_is_identity cf now st mid s a name m o :
+  manages a = Some name -> get_market mid (s_markets s) = Some m -> get_order name (mk_orders m) = Some o ->
+  so_status o <> SExecutable \/ so_bet o = None -> request0 cf now st mid s a = s.
+Proof.
+  intros Ha Em Eo Hrej. unfold request0. rewrite Em.
+  assert (Hst : so_status o <> SExecutable -> negb (status_eqb (so_status o) SExecutable) = true) by (intros H; destruct (so_status o); try reflexivity; contradiction).
+  destruct a as [? ? ? ? ?|n red|n p|n price mv|? ?]; cbn in Ha; try discriminate; inversion Ha; subst n; rewrite Eo;
+    (destruct (negb (order_validation_ok o) || negb (market_open m)); [reflexivity|]);
+    (destruct (so_bet o) eqn:Eb; [|reflexivity]); (destruct Hrej as [Hrej|Hrej]; [|discriminate]); specialize (Hst Hrej).
+  - destruct (so_type o); try reflexivity. destruct (match red with Some x => negb (x =? 0) && (remaining o - x <? 0) | None => false end); [reflexivity|]. rewrite Hst. reflexivity.
+  - destruct (so_type o); try reflexivity. destruct (persist_eqb (so_persist o) p); [reflexivity|]. rewrite Hst. reflexivity.
+  - destruct (so_type o); try reflexivity; (destruct (so_price o =? price); [reflexivity|]; rewrite Hst; reflexivity).
+Qed.
+(* a request naming an order the market does not hold changes nothing either *)
+Theorem request0_unknown_is_identity cf now st mid s a name m :
+  manages a = Some name -> get_market mid (s_markets s) = Some m -> get_order name (mk_orders m) = None -> request0 cf now st mid s a = s.
+Proof.
+  intros Ha Em Eo. unfold request0. rewrite Em. destruct a as [? ? ? ? ?|n red|n p|n price mv|? ?]; cbn in Ha; try discriminate; inversion Ha; subst n; rewrite Eo; reflexivity.
+Qed.
